@@ -204,6 +204,7 @@ func cmdCheck(args []string) int {
 	only := fs.String("func", "", "only this function (debug)")
 	keep := fs.Bool("keep", false, "keep smt files of proved obligations")
 	noEvidence := fs.Bool("no-evidence", false, "do not write the evidence file")
+	outSuffix := fs.String("outsuffix", "", "suffix of the output directory")
 	fs.Parse(args)
 	if *prop == "" {
 		fmt.Fprintln(os.Stderr, "need -prop")
@@ -216,7 +217,7 @@ func cmdCheck(args []string) int {
 	if *tier == "thorough" {
 		timeoutMs = 60000
 	}
-	outDir := filepath.Join(*verif, "out", *prop)
+	outDir := filepath.Join(*verif, "out", *prop+*outSuffix)
 	os.RemoveAll(outDir)
 	os.MkdirAll(outDir, 0o755)
 
